@@ -370,12 +370,23 @@ func (s *Serializer) loadInterfaceOpts(x interface{}, opts LoadOpts) *lisp.LVal 
 			return lisp.Errorf("allocation size %d exceeds maximum (%d)", len(x), maxAlloc)
 		}
 		m := SortedMap(x)
+		// Go map order is random, so when several members fail to load the
+		// one reported must not be "whichever was visited first": report the
+		// failure of the smallest key, as a walk in key order would.
+		var errKey string
+		var firstErr *lisp.LVal
 		for k, v := range m {
 			lval := s.loadInterfaceOpts(v, opts)
 			if lval.Type == lisp.LError {
-				return lval
+				if firstErr == nil || k < errKey {
+					errKey, firstErr = k, lval
+				}
+				continue
 			}
 			m[k] = lval
+		}
+		if firstErr != nil {
+			return firstErr
 		}
 		return lisp.SortedMapFromData(lisp.NewMapData(m))
 	case []interface{}:
